@@ -169,7 +169,7 @@ class Driver:
         if self.server is None or not self.server.is_alive():
             from pyworkers.remote_server import spawn_server
             os.environ['PWV_SPEC'] = self.spec_path
-            self.server = spawn_server(('127.0.0.1', 0))
+            self.server = spawn_server(('127.0.0.1', 0), **getattr(self, 'server_kwargs', {}))
         return self.server
 
     def close(self):
